@@ -355,6 +355,13 @@ def run_loaders(c, out):
             ok, r = call(out, "tlt_load", lambda: ioutils.tlt_load("a.tlt", sort_angles=False))
             if ok:
                 out.check(close32(r, f32(vals)), "tlt_load:unsorted_request_not_file_order", "")
+            # the file is replaced under the same name: the loader must return the new content
+            vals2 = np.sort(vals)[::-1] + 0.5
+            with open("a.tlt", "w") as f:
+                f.write("".join("%.2f\n" % v for v in vals2))
+            ok, r = call(out, "tlt_load", lambda: ioutils.tlt_load("a.tlt"))
+            if ok:
+                out.check(close32(r, np.sort(f32(vals2))), "tlt_load:stale_content_after_file_was_rewritten", "")
         else:
             inp = vals.copy() if c["as"] == "array" else vals.tolist()
             ok, r = call(out, "tlt_load", lambda: ioutils.tlt_load(inp))
@@ -365,6 +372,12 @@ def run_loaders(c, out):
         if c["as"] == "file":
             with open("dose.txt", "w") as f:
                 f.write("".join("%.3f\n" % v for v in d))
+            ok, r0 = call(out, "total_dose_load", lambda: ioutils.total_dose_load("dose.txt"))
+            if ok and np.asarray(r0).size:
+                try:
+                    r0 += 1  # what the loader returned belongs to the caller
+                except Exception:
+                    pass
             ok, r = call(out, "total_dose_load", lambda: ioutils.total_dose_load("dose.txt"))
         else:
             inp = d.copy() if c["as"] == "array" else d.tolist()
